@@ -299,6 +299,39 @@ func (s *Storage) CheckQuota(username string, messageSize int64, quotaLimit int6
 	return nil
 }
 
+// CheckRecipientQuota checks the quota of the store a recipient's message is filed in: the user of exactly that
+// address (a user that does not exist yet has used nothing). Role mailboxes have no quota.
+func (s *Storage) CheckRecipientQuota(recipient string, messageSize int64, quotaLimit int64) error {
+	sharedDB := s.dbManager.GetSharedDB()
+	if _, _, err := db.GetRoleMailboxByEmail(sharedDB, recipient); err == nil {
+		return nil
+	}
+	if strings.Count(recipient, "@") != 1 {
+		return nil // not an address a store can be found for: the delivery itself reports that
+	}
+	var currentUsage int64
+	if userID, err := db.GetUserByEmail(sharedDB, recipient); err == nil {
+		userDB, err := s.dbManager.GetUserDB(userID)
+		if err != nil {
+			return fmt.Errorf("failed to get user database: %w", err)
+		}
+		err = userDB.QueryRow(`
+			SELECT COALESCE(SUM(m.size_bytes), 0)
+			FROM messages m
+			JOIN message_mailbox mm ON m.id = mm.message_id
+			JOIN mailboxes mb ON mm.mailbox_id = mb.id
+			WHERE mb.user_id = ?
+		`, userID).Scan(&currentUsage)
+		if err != nil {
+			return fmt.Errorf("failed to calculate quota: %w", err)
+		}
+	}
+	if currentUsage+messageSize > quotaLimit {
+		return fmt.Errorf("quota exceeded: current=%d, limit=%d, message=%d", currentUsage, quotaLimit, messageSize)
+	}
+	return nil
+}
+
 // GetMessageCount returns the total number of messages for a user
 func (s *Storage) GetMessageCount(username string) (int, error) {
 	sharedDB := s.dbManager.GetSharedDB()
